@@ -63,6 +63,9 @@ func checkErr(name string, data []byte, err error) string {
 			if m := posOK(data, e.Pos); m != "" {
 				return fmt.Sprintf("%s error %q: %s", name, e.Error(), m)
 			}
+		} else {
+			// every error of a parse names the place in the input it is about
+			return fmt.Sprintf("%s error %q carries no position (%+v, file name %q)", name, e.Error(), e.Pos, e.Filename)
 		}
 	}
 	return ""
@@ -620,6 +623,40 @@ func Run(r *fw.Run) {
 				}
 			})
 		})
+	}
+
+	// directives that are syntactically fine and refused for what they say (every verb, as a single line and
+	// inside a block, after some other statements so that the right position is not 1:1): every error must
+	// carry a position that agrees with the input
+	{
+		l := fw.NewLocal()
+		bad := []string{
+			"replace /v1 => ../x", "replace gopkg.in/x => ../x", "replace a.com/x/v2 v1.0.0 => ../x", "replace a.com/x v2.0.0 => ../x", "replace a.com/x => b.com/y",
+			"replace a.com/x => ../x v1.0.0", "replace a.com/x v1 => ../x", "replace a.com/x => b.com/y/v2 v1.0.0", "replace a.com/x v1.0.0 v1.1.0 => ../x", "replace => ../x", "replace a.com/x =>",
+			"require a.com/x/v2 v1.0.0", "require a.com/x v2.0.0", "require a.com/x vbad", "require a.com/x", "require a.com/x v1.0.0 v1.1.0", "require /v1 v1.0.0",
+			"exclude a.com/x/v2 v1.0.0", "exclude a.com/x v1", "exclude a.com/x", "exclude gopkg.in/x v1.0.0",
+			"retract v1", "retract [v1.0.0]", "retract [v1.0.0, ]", "retract [v1.0.0, v1.1.0", "retract", "retract v1.0.0 v1.1.0",
+			"go 1", "go 1.x", "go", "go 1.21 1.22", "toolchain go", "toolchain", "toolchain a b", "godebug x", "godebug =", "godebug", "godebug a=b c=d", "tool", "tool a b", "tool /v1",
+			"module a.com/x b", "module", "module /v1", "use ../x y", "use", "use x",
+		}
+		r.Bounds["semantic_error_directives"] = len(bad)
+		for _, b := range bad {
+			verb, rest, _ := strings.Cut(b, " ")
+			forms := []string{b + "\n", verb + " (\n\t" + rest + "\n)\n", verb + " (\n\t// c\n\n\t" + rest + " // s\n)\n"}
+			for _, f := range forms {
+				for _, pre := range []string{"", "module example.com/m\n\n// c\ngo 1.21\n\n", "go 1.21\n\n"} {
+					data := []byte(pre + f)
+					l.States++
+					l.Transitions++
+					l.Execs += 5
+					res := oneInput(data)
+					if res.msg != "" {
+						report("file", data, res)
+					}
+				}
+			}
+		}
+		r.Merge(l)
 	}
 
 	retention(r)
